@@ -2,6 +2,7 @@ package main
 
 import (
 	"fmt"
+	"go/ast"
 	"go/types"
 	"sort"
 	"strings"
@@ -55,6 +56,11 @@ func (e *Engine) verifyFunc(fn *ssa.Function) (u *Unit) {
 		fr.assumeWF(fv.Type(), n, st, "true")
 		bindings = append(bindings, &Val{t: n})
 	}
+	if fn.Name() == "init" && fn.Synthetic != "" && fn.Pkg != nil {
+		// the package initialiser runs once: its guard is false on entry
+		g := u.heapGet(st, "G:"+fn.Pkg.Pkg.Path()+".init$guard", "Bool")
+		u.assume("true", not(g))
+	}
 	pre := st.clone()
 	if ct != nil {
 		for _, r := range ct.Requires {
@@ -83,6 +89,14 @@ func (e *Engine) verifyFunc(fn *ssa.Function) (u *Unit) {
 			u.oblige(fr.obName("ensures", c.Label), "ensures", c.Tags, exitReach, t, fr.pos(fn.Pos()), c.Text)
 		}
 	}
+	if ct != nil {
+		for _, cl := range ct.Asserts {
+			if !u.assertsSeen[cl.Label] {
+				u.oblige(fr.obName("assert", cl.Label), "assert", cl.Tags, "true", "false", fr.pos(fn.Pos()),
+					"anchor call site not found: "+cl.Callee+" #"+fmt.Sprint(cl.Ordinal)+" -- "+cl.Text)
+			}
+		}
+	}
 	if ob := u.oblige(fr.obName("canary", "exit-unreachable"), "canary", nil, exitReach, "false", "", "vacuity canary: must be refutable"); ob != nil {
 		ob.Canary = true
 	}
@@ -97,8 +111,13 @@ func (u *Unit) addValue(name, term string) {
 }
 
 // callOrdinals: for assert@call matching, occurrences of a callee in source order.
-func calleeLabel(c *ssa.CallCommon) []string {
+func calleeLabel(fr *frame, c *ssa.CallCommon) []string {
 	var names []string
+	if !c.IsInvoke() && c.StaticCallee() == nil {
+		if _, isB := c.Value.(*ssa.Builtin); !isB {
+			return []string{funcValueKey(fr, c.Value)}
+		}
+	}
 	if c.IsInvoke() {
 		names = append(names, c.Method.Name(), c.Method.FullName())
 		return names
@@ -117,7 +136,7 @@ func (fr *frame) callSiteAsserts(call ssa.CallInstruction, args []*Val, st *Stat
 		return
 	}
 	c := call.Common()
-	labels := calleeLabel(c)
+	labels := calleeLabel(fr, c)
 	for _, cl := range fr.contract.Asserts {
 		match := false
 		for _, l := range labels {
@@ -134,7 +153,7 @@ func (fr *frame) callSiteAsserts(call ssa.CallInstruction, args []*Val, st *Stat
 			for _, b := range fr.fn.Blocks {
 				for _, in := range b.Instrs {
 					if ci, ok := in.(ssa.CallInstruction); ok {
-						for _, l := range calleeLabel(ci.Common()) {
+						for _, l := range calleeLabel(fr, ci.Common()) {
 							if l == cl.Callee {
 								sites = append(sites, ci)
 								break
@@ -152,12 +171,25 @@ func (fr *frame) callSiteAsserts(call ssa.CallInstruction, args []*Val, st *Stat
 			continue
 		}
 		sargs := append([]*Val{}, fr.params...)
-		need := len(cl.Fn.Params) - len(sargs)
+		need := len(cl.Fn.Params) - len(sargs) - len(cl.VarNames)
 		if need < 0 || need > len(args) {
 			fr.u.eng.stale = append(fr.u.eng.stale, "assert@call "+cl.Label+": parameter mismatch")
 			continue
 		}
 		sargs = append(sargs, args[:need]...)
+		okLocals := true
+		for _, name := range cl.VarLocal {
+			lv := fr.localNamed(name, call, st)
+			if lv == nil {
+				fr.u.eng.stale = append(fr.u.eng.stale, "assert@call "+cl.Label+": local "+name+" not found")
+				okLocals = false
+				break
+			}
+			sargs = append(sargs, lv)
+		}
+		if !okLocals {
+			continue
+		}
 		t := fr.evalSpec(cl, sargs, st, nil)
 		fr.u.oblige(fr.obName("assert", cl.Label), "assert", cl.Tags, reach, t, fr.pos(call.Pos()), cl.Text)
 		fr.u.assertsSeen[cl.Label] = true
@@ -168,4 +200,49 @@ func describeUnit(u *Unit) string {
 	var b strings.Builder
 	fmt.Fprintf(&b, "unit %s: %d obligations, %d cmds\n", funcName(u.fn), len(u.obs), len(u.cmds))
 	return b.String()
+}
+
+
+// localNamed finds the value of the source-level local variable `name` as of instruction `at`:
+// the latest DebugRef of that variable which dominates `at` (go/ssa GlobalDebug mode).
+func (fr *frame) localNamed(name string, at ssa.Instruction, st *State) *Val {
+	var best *ssa.DebugRef
+	atBlock := at.Block()
+	for _, b := range fr.fn.Blocks {
+		if !(b == atBlock || b.Dominates(atBlock)) {
+			continue
+		}
+		for _, in := range b.Instrs {
+			if in == at && b == atBlock {
+				break
+			}
+			dr, ok := in.(*ssa.DebugRef)
+			if !ok {
+				continue
+			}
+			id, ok := dr.Expr.(*ast.Ident)
+			if !ok || id.Name != name {
+				continue
+			}
+			if _, seen := fr.vals[dr.X]; !seen {
+				if _, isConst := dr.X.(*ssa.Const); !isConst {
+					if _, isGlobal := dr.X.(*ssa.Global); !isGlobal {
+						continue
+					}
+				}
+			}
+			if best == nil || best.Block() == b || best.Block().Dominates(b) {
+				best = dr
+			}
+		}
+	}
+	if best == nil {
+		return nil
+	}
+	v := fr.valOf(best.X)
+	if best.IsAddr {
+		lv := fr.ptrLV(v, best.X.Type())
+		return &Val{t: fr.u.read(st, lv)}
+	}
+	return v
 }
